@@ -391,3 +391,129 @@ theorem rowSamples_spec (d perRow n : Nat) (rows : List (List Nat)) (hd : d ∈ 
     _ ≤ 8 * n := hfit
 
 end OxiVerif.C24
+
+/-! ### zlib made of stored blocks: the model's `storedInflate` undoes the reference encoder -/
+namespace OxiVerif.C24
+open OxiVerif.Spec.C24Png (storedBlocks zlibStored le16 be32)
+
+theorem adler_eq (bs : List Nat) : adler32 bs = Spec.C24Png.adler32 bs := rfl
+
+theorem adler_fold_lt (bs : List Nat) : ∀ p : Nat × Nat, p.1 < 65521 → p.2 < 65521 →
+    (bs.foldl (fun (p : Nat × Nat) x => ((p.1 + x) % 65521, (p.2 + (p.1 + x) % 65521) % 65521)) p).1 < 65521 ∧
+    (bs.foldl (fun (p : Nat × Nat) x => ((p.1 + x) % 65521, (p.2 + (p.1 + x) % 65521) % 65521)) p).2 < 65521 := by
+  induction bs with
+  | nil => intro p h1 h2; exact ⟨h1, h2⟩
+  | cons b bs ih =>
+    intro p _ _
+    simp only [List.foldl_cons]
+    exact ih _ (Nat.mod_lt _ (by decide)) (Nat.mod_lt _ (by decide))
+
+theorem adler32_lt (bs : List Nat) : adler32 bs < 4294967296 := by
+  unfold adler32
+  have := adler_fold_lt bs (1, 0) (by decide) (by decide)
+  simp only at this ⊢
+  omega
+
+theorem storedBlocksInflate_storedBlocks (blk : Nat) (hb1 : 1 ≤ blk) (hb2 : blk ≤ 65535) :
+    ∀ (f1 : Nat) (data out : List Nat) (f2 : Nat), data.length < f1 → f1 ≤ f2 →
+      storedBlocksInflate f2 (storedBlocks blk f1 data ++ be32 (adler32 (out ++ data))) out
+        = .ok (out ++ data) := by
+  intro f1
+  induction f1 with
+  | zero => intro data out f2 h _; omega
+  | succ n ih =>
+    intro data out f2 hlen hf
+    obtain ⟨m, rfl⟩ : ∃ m, f2 = m + 1 := ⟨f2 - 1, by omega⟩
+    have hl : (data.take blk).length ≤ 65535 := by simp; omega
+    generalize hc : data.take blk = c at hl
+    generalize hr : data.drop blk = rest
+    have hdata : c ++ rest = data := by rw [← hc, ← hr, List.take_append_drop]
+    have hlen16 : c.length % 256 + 256 * (c.length / 256 % 256) = c.length := by omega
+    have hn16 : (65535 - c.length) % 256 + 256 * ((65535 - c.length) / 256 % 256) = 65535 - c.length := by
+      omega
+    by_cases hre : rest = []
+    · -- last block
+      subst hre
+      have hcd : c = data := by simpa using hdata
+      simp only [storedBlocks, hc, hr, List.isEmpty_nil, if_true, le16, List.cons_append,
+        List.nil_append, List.append_nil, storedBlocksInflate]
+      have hA := adler32_lt (out ++ data)
+      have h1 : (1 : Nat) % 2 = 1 := rfl
+      have h2 : (1 : Nat) / 2 % 4 = 0 := rfl
+      simp only [h1, h2, List.getD_cons_zero, List.getD_cons_succ, List.drop_succ_cons, List.drop_zero,
+        List.length_cons, List.length_append, hlen16, hn16, if_true]
+      have hbl : (be32 (adler32 (out ++ data))).length = 4 := rfl
+      have hbe : be32At (be32 (adler32 (out ++ data))) 0 = adler32 (out ++ data) :=
+        be32At_cons _ hA []
+      rw [List.take_left' rfl, List.drop_left' rfl, hbl, hbe]
+      rw [if_neg (by decide), if_neg (by decide), if_neg (by omega), if_neg (by omega),
+        if_neg (by omega), if_neg (by decide), if_pos (by rw [hcd]), hcd]
+    · -- a block followed by more blocks
+      have hne : rest.isEmpty = false := by cases rest <;> simp_all
+      have h2 : (0 : Nat) / 2 % 4 = 0 := rfl
+      have h1 : ¬ ((0 : Nat) % 2 = 1) := by decide
+      simp only [storedBlocks, hc, hr, hne, Bool.false_eq_true, if_false, le16, List.cons_append,
+        List.nil_append, List.append_assoc, storedBlocksInflate]
+      simp only [h1, h2, List.getD_cons_zero, List.getD_cons_succ, List.drop_succ_cons, List.drop_zero,
+        List.length_cons, List.length_append, hlen16, hn16, if_false]
+      have hpos : 0 < rest.length := by
+        cases rest with
+        | nil => exact absurd rfl hre
+        | cons _ _ => simp
+      have hrl : rest.length < n := by
+        have : rest.length = data.length - blk := by rw [← hr]; simp
+        omega
+      rw [List.take_left' rfl, List.drop_left' rfl]
+      have := ih rest (out ++ c) m hrl (by omega)
+      rw [List.append_assoc, hdata] at this
+      rw [if_neg (by decide), if_neg (by decide), if_neg (by omega), if_neg (by omega),
+        if_neg (by omega)]
+      exact this
+
+
+theorem storedBlocks_length (blk : Nat) (hb1 : 1 ≤ blk) :
+    ∀ (f : Nat) (data : List Nat), data.length < f →
+      data.length ≤ (storedBlocks blk f data).length := by
+  intro f
+  induction f with
+  | zero => intro data h; omega
+  | succ n ih =>
+    intro data hlen
+    have hsum : (data.take blk).length + (data.drop blk).length = data.length := by
+      rw [← List.length_append, List.take_append_drop]
+    by_cases hre : data.drop blk = []
+    · simp only [storedBlocks, hre, List.isEmpty_nil, if_true, le16, List.length_append,
+        List.length_cons, List.length_nil]
+      rw [hre] at hsum
+      simp at hsum ⊢
+      omega
+    · have hne : (data.drop blk).isEmpty = false := by
+        cases h : data.drop blk <;> simp_all
+      have hpos : 0 < (data.drop blk).length := by
+        cases h : data.drop blk with
+        | nil => exact absurd h hre
+        | cons _ _ => simp
+      have hrl : (data.drop blk).length < n := by
+        have : (data.drop blk).length = data.length - blk := by simp
+        omega
+      have := ih (data.drop blk) hrl
+      simp only [storedBlocks, hne, Bool.false_eq_true, if_false, le16, List.length_append,
+        List.length_cons, List.length_nil]
+      omega
+
+/-- zlib inflate as `decompress_idat` sees it undoes the reference stored-block zlib encoder
+(RFC 1950 header, stored blocks of at most `blk` bytes, Adler-32), for any block size and data -/
+theorem storedInflate_zlibStored (blk : Nat) (data : List Nat) :
+    storedInflate (zlibStored blk data) = .ok data := by
+  unfold zlibStored storedInflate
+  simp only [List.cons_append, List.nil_append]
+  rw [if_neg (by decide)]
+  have := storedBlocksInflate_storedBlocks (max 1 (min blk 65535)) (by omega) (by omega)
+    (data.length + 1) data [] ((storedBlocks (max 1 (min blk 65535)) (data.length + 1) data ++
+      be32 (Spec.C24Png.adler32 data)).length + 1) (by omega) (by
+        have := storedBlocks_length (max 1 (min blk 65535)) (by omega) (data.length + 1) data (by omega)
+        simp only [List.length_append]; omega)
+  rw [List.nil_append, adler_eq] at this
+  simpa using this
+
+end OxiVerif.C24
